@@ -51,6 +51,9 @@ inductive Ty
   | hashSet (sz : Nat) (t s : Ty)
   /-- `HashMap<K, V, S>`; `esz` = `size_of::<(K, V)>()` -/
   | hashMap (sz : Nat) (esz : Nat) (k v s : Ty)
+  /-- a user-defined type with its own `HeapSize::heap_size` (the value says what it reports) and the
+  trait's *default* bulk helpers — e.g. a `Copy` handle into an arena: no drop glue, non-zero heap size -/
+  | user (sz : Nat)
 deriving Repr, Inhabited
 
 inductive TVal
@@ -78,7 +81,7 @@ deriving Repr, Inhabited
 def Ty.size : Ty → Nat
   | .prim sz | .stringLike sz | .cString sz | .ref sz _ | .box sz _ | .array sz _ _ | .tuple sz _
   | .option sz _ | .result sz _ _ | .wrapping sz _ | .range2 sz _ | .range1 sz _ | .lock sz _
-  | .vec sz _ | .binaryHeap sz _ | .hashSet sz _ _ | .hashMap sz _ _ _ _ => sz
+  | .vec sz _ | .binaryHeap sz _ | .hashSet sz _ _ | .hashMap sz _ _ _ _ | .user sz => sz
   | .strLike | .path | .slice _ | .phantom => 0
 
 def sum (l : List Nat) : Nat := l.foldr (· + ·) 0
@@ -118,6 +121,7 @@ def heapSize : Ty → TVal → Nat
   | .path, _ => 0
   | .stringLike _, .buf cap => cap
   | .cString _, .buf n => n
+  | .user _, .buf n => n
   | .ref _ _, _ => 0
   | .box _ t, .box v => valueSize t v + heapSize t v
   | .slice t, .seq vs => hsSumExact t vs
